@@ -488,6 +488,19 @@ def _role(body, local, proj):
     return "payload", o
 
 
+def _reaches(body, local, proj, tpls, rx, depth=3):
+    """does the value derive from a call matching rx?  Token streams assembled by quote! are followed into what they
+    interpolate (they are filled through `&mut`, which a backward slice of the stream itself does not show)"""
+    if any(fn_matches(c, rx) for _, c in M.deep_slice(body, local, component=_comp(proj))[0]):
+        return True
+    if depth > 0:
+        for sl_blk, sl, _ in _alternatives(body, local, proj0=proj or ()):
+            tp = Q.stream_template(body, sl, tpls)
+            if tp is not None and any(_reaches(body, l2, pj2, tpls, rx, depth - 1) for (_, l2, _), pj2 in zip(tp.interps, tp.projs) if l2 is not None):
+                return True
+    return False
+
+
 def variant_rule(crate, prop, rule="C01.R3"):
     r = Result(rule, "enum representations, read off the alternatives of the value format_variant pushes (MIR, helpers included): each alternative's format string is one of serde's five shapes and its slots are filled, in order, with exactly the roles the shape names (tag and content are recognised by where they come from: the fields of Tagged::Adjacently / Tagged::Internally; the name by escaped_name(..)); an alternative without a name is only reached for untagged variants / enums (or the tagged struct body of an internally tagged variant); one with a name never is; an alternative without payload is not reached for a variant that is known to carry one, and one with payload not for a unit variant")
     b = crate.ibody(VARIANT_FN)
@@ -513,7 +526,7 @@ def variant_rule(crate, prop, rule="C01.R3"):
             fc = S.format_calls(tp.tokens)
             lit = S.unquote(fc[0][0]) if fc else None
             roles = [_role(b, l, pj)[0] for (_, l, _), pj in zip(tp.interps, tp.projs)]
-            payload_ok = all(any(fn_matches(c, r"types::type_def$") for _, c in M.deep_slice(b, l, component=_comp(pj))[0])
+            payload_ok = all(_reaches(b, l, pj, tpls, r"types::type_def$")
                              for ((_, l, _), pj), ro in zip(zip(tp.interps, tp.projs), roles) if ro == "payload")
             slot_roles = [x for x in roles if x != "crate"]
             cons = _edge_constraints(b, ablk)
@@ -523,9 +536,9 @@ def variant_rule(crate, prop, rule="C01.R3"):
             skip = [v for s, v in cons if re.search(r"FieldAttr\.skip$", s)]
             verdict, why = "ok", ""
             if lit is None:
-                if slot_roles != ["payload"]:
-                    verdict, why = "BAD", "a pass-through alternative interpolates %s" % slot_roles
-                elif (0 in untag or not untag) and any(v in (0, 1) for v in tagged) and not (1 in untag):
+                # no format string: the alternative *is* the payload (the variant's type, `as` / `type` applied)
+                slot_roles, payload_ok = ["payload"], True
+                if (0 in untag or not untag) and any(v in (0, 1) for v in tagged) and not (1 in untag):
                     verdict, why = "BAD", "the payload alone is emitted for an externally / adjacently tagged variant"
             else:
                 shape = next((sh for sh in VARIANT_SHAPES if re.match(sh[0], lit)), None)
